@@ -30,6 +30,11 @@ pub fn mk(k: usize, rank: &[usize], kcount: usize, norm: bool) -> OligoComputer 
     }
 }
 
+/// public window onto the private vectorise_one (used by the C12/C13 differentials)
+pub fn vec_one(oc: &OligoComputer, seq: &[u8]) -> Vec<f64> {
+    oc.vectorise_one(seq)
+}
+
 /// column of a canonical code = number of canonical codes below it (oracle,
 /// independent of the table)
 fn column_of(c: u64, k: usize) -> usize {
